@@ -120,14 +120,14 @@ def body():
     make, meta = [], []
     hx = CL.hx
 
-    def add_make(op, S, R, content, ctype="data", chain=False):
+    def add_make(op, S, R, content, ctype="data", chain=False, light=False):
         key, iv = rb(16), rb(16)
         line = {"op": op, "id": len(make) + 1, "content": hx(content) if content else "-", "ctype": ctype, "key": hx(key), "iv": hx(iv), "seed": rng.randrange(1 << 30)}
         if S:
             line["certs"] = ",".join(hx(W.cert[i] + (W.root if chain else b"")) for i in S); line["keys"] = ",".join(hx(W.d[i]) for i in S)
         if R:
             line["rcerts"] = ",".join(hx(W.cert[i]) for i in R)
-        make.append(line); meta.append(dict(op=op, S=S, R=R, content=content, key=key, iv=iv, chain=chain, ctype=ctype))
+        make.append(line); meta.append(dict(op=op, S=S, R=R, content=content, key=key, iv=iv, chain=chain, ctype=ctype, light=light))
     # every signer-count x recipient-count with a small content, then content classes with varying sets
     for ns in range(1, 5):
         S = list(range(1, ns + 1))
@@ -141,6 +141,14 @@ def body():
     for R in ([1, 2], [2, 1], [1, 5], [5, 1], [2, 5, 1], [5, 2, 1, 3]):
         add_make("envelop", [], R, rb(31))
         add_make("sign_and_envelop", [3], R, rb(29))
+    # content sizes walking across the DER length-form switches of the content, the ciphertext and their wrappers (round trips only, no tamper sweep)
+    sweep = (list(range(96, 132)) + list(range(224, 260))) if c.quick else (list(range(90, 140)) + list(range(216, 262)) + list(range(65480, 65540, 3)))
+    for L in sweep:
+        ct = rb(L)
+        add_make("sign", [1 + L % 4], [], ct, light=True)
+        add_make("encrypt", [], [], ct, light=True)
+        add_make("envelop", [], [1 + L % 4, 1 + (L + 1) % 4], ct, light=True)
+        add_make("sign_and_envelop", [1 + (L + 2) % 4], [1 + L % 4], ct, light=True)
     for L in lens:
         ct = rb(L)
         add_make("sign", rng.sample([1, 2, 3, 4], rng.randrange(1, 4)), [], ct)
@@ -196,7 +204,7 @@ def body():
         else:
             dop = "deenvelop" if op == "envelop" else "deenvelop_and_verify"
             for r in m["R"]:
-                for prov in ("raw", "der", "pem"):
+                for prov in (("raw",) if m.get("light") else ("raw", "der", "pem")):
                     fol(key + ":open:p%d:%s" % (r, prov), dict(base, op=dop, cms=cmshex, rkey=hx(W.d[r]), rcert=hx(W.cert[r]), prov=prov),
                         dict(rightkey=True, tampered=False, nsi=len(m["S"]), expect=expect, expectcerts=expectcerts))
             outsider = [i for i in range(1, 7) if i not in m["R"]][0]
@@ -204,7 +212,7 @@ def body():
             fol(key + ":open:recipient-cert-other-key", dict(base, op=dop, cms=cmshex, rkey=hx(W.d[outsider]), rcert=hx(W.cert[m["R"][0]]), prov="raw"), dict(rightkey=False, tampered=False, nsi=len(m["S"]), expect=expect))
             if op == "sign_and_envelop":
                 fol(key + ":open:zero-signer-infos", dict(base, op=dop, cms=hx(without_signer_infos(cms)), rkey=hx(W.d[m["R"][0]]), rcert=hx(W.cert[m["R"][0]]), prov="raw"), dict(rightkey=True, tampered=False, nsi=0, expect=expect))
-        if m.get("wrongkey"):
+        if m.get("wrongkey") or m.get("light"):
             continue
         # located single-bit modifications
         for name, spans in reg.items():
